@@ -357,6 +357,7 @@ func localVar(fi *FuncInfo, name string, pos token.Pos) *types.Var {
 		body = fi.Lit
 	}
 	var best *types.Var
+	bestIn := false
 	for id, obj := range fi.Pkg.TypesInfo.Defs {
 		v, ok := obj.(*types.Var)
 		if !ok || id.Name != name || v.IsField() {
@@ -366,11 +367,15 @@ func localVar(fi *FuncInfo, name string, pos token.Pos) *types.Var {
 			continue
 		}
 		sc := v.Parent()
-		if sc != nil && sc.Contains(pos) {
-			if best == nil || best.Parent().Contains(v.Pos()) {
-				best = v
-			}
-		} else if best == nil {
+		in := sc != nil && sc.Contains(pos)
+		switch {
+		case best == nil:
+			best, bestIn = v, in
+		case in && !bestIn:
+			best, bestIn = v, in
+		case in && bestIn && best.Parent().Contains(v.Pos()):
+			best = v // innermost enclosing declaration
+		case !in && !bestIn && v.Pos() < best.Pos():
 			best = v
 		}
 	}
@@ -677,6 +682,10 @@ func generate(pkg *packages.Package, cf *ContractFile) (string, map[string]*Func
 		}
 		li.GoName = g.fresh("lockinv_" + sanitize(li.Type+"_"+li.Mutex))
 		fmt.Fprintf(&g.buf, "func %s%s(%s *%s%s) bool { return %s }\n", li.GoName, tparams, li.Param, li.Type, targs, rewriteExpr(li.Expr))
+		if li.Rely != "" {
+			li.RelyGo = g.fresh("rely_" + sanitize(li.Type))
+			fmt.Fprintf(&g.buf, "func %s%s(%s *%s%s) bool { return %s }\n", li.RelyGo, tparams, li.Param, li.Type, targs, rewriteExpr(li.Rely))
+		}
 		for _, m := range li.Guards {
 			m.GoName = g.fresh("guard_" + sanitize(li.Type))
 			ex := rewriteExpr(m.Expr)
@@ -685,6 +694,10 @@ func generate(pkg *packages.Package, cf *ContractFile) (string, map[string]*Func
 			}
 			fmt.Fprintf(&g.buf, "func %s%s(%s *%s%s) any { return %s }\n", m.GoName, tparams, li.Param, li.Type, targs, ex)
 		}
+	}
+	for _, ci := range cf.ChanInvs {
+		ci.GoName = g.fresh("chaninv")
+		fmt.Fprintf(&g.buf, "func %s%s(%s %s) bool { return %s }\n", ci.GoName, ci.TParams, ci.Param, ci.Elem, rewriteExpr(ci.Expr))
 	}
 	for _, fc := range cf.Funcs {
 		fi, err := findFunc(pkg, fc)
